@@ -401,6 +401,21 @@ func (g *generator) next(w *world) (op, bool, error) {
 					return op{Kind: "STORE", S: in.S, UID: uid, Set: set, Act: "=", Silent: g.rng.Chance(0.3), Flags: fl}, true, nil
 				}
 			}
+		case "undel-ent":
+			// the \Deleted mark is taken back: -FLAGS (\Deleted), or a replacing list without it
+			for i, r := range s.view {
+				if r.Ent == in.Ent {
+					uid := g.rng.Chance(0.3)
+					set := fmt.Sprint(i + 1)
+					if uid {
+						set = fmt.Sprint(r.UID)
+					}
+					if g.rng.Chance(0.7) {
+						return op{Kind: "STORE", S: in.S, UID: uid, Set: set, Act: "-", Silent: g.rng.Chance(0.3), Flags: [][]string{{`\Deleted`}, {`\Deleted`, "xs"}, {`\deleted`}}[g.rng.Pick(3)]}, true, nil
+					}
+					return op{Kind: "STORE", S: in.S, UID: uid, Set: set, Act: "=", Silent: g.rng.Chance(0.3), Flags: [][]string{{}, {`\Seen`}}[g.rng.Pick(2)]}, true, nil
+				}
+			}
 		case "del-ent", "flag-ent":
 			for i, r := range s.view {
 				if r.Ent == in.Ent {
@@ -476,6 +491,19 @@ func (g *generator) next(w *world) (op, bool, error) {
 			}
 			g.pending = append(g.pending, intent{S: other, What: "noop"}, intent{S: mate, What: "expunge-or-close"})
 			return op{Kind: "COPY", S: si, Set: fmt.Sprint(p), Box: w.sess[other].box}, true, nil
+		}
+		if len(sh) > 0 && g.rng.Chance(0.3) {
+			// \Deleted set and taken back by this session; a session that shares the mailbox is told after each step and then
+			// expunges / closes: nothing may go
+			mate := sh[g.rng.Pick(len(sh))]
+			p := g.rng.Range(1, n)
+			ent := view[p-1].Ent
+			g.pending = append(g.pending, intent{S: mate, What: "noop"}, intent{S: si, What: "undel-ent", Ent: ent})
+			if g.rng.Chance(0.7) {
+				g.pending = append(g.pending, intent{S: mate, What: "noop"})
+			}
+			g.pending = append(g.pending, intent{S: mate, What: "expunge-or-close"})
+			return op{Kind: "STORE", S: si, Set: fmt.Sprint(p), Act: "+", Silent: g.rng.Chance(0.3), Flags: []string{`\Deleted`}}, true, nil
 		}
 		if len(sh) > 0 && g.rng.Chance(0.3) {
 			// news for this mailbox (a new message, or one taken out and put back), then a session that shares the mailbox
